@@ -36,6 +36,31 @@ extern char *__malloc_heap_start;
 extern char *__malloc_heap_end;
 extern struct __freelist *__flp;
 extern int __allocation_counter;
+// the same two files compiled with NDEBUG (C10_*_rel.cpp)
+extern "C" void *igr_malloc(size_t);
+extern "C" void igr_free(void *);
+extern "C" void *igr_realloc(void *, size_t);
+extern char *__brkval_rel;
+extern char *__malloc_heap_start_rel;
+extern char *__malloc_heap_end_rel;
+extern struct __freelist *__flp_rel;
+extern int __allocation_counter_rel;
+
+struct HeapApi
+{
+    void *(*malloc_)(size_t);
+    void (*free_)(void *);
+    void *(*realloc_)(void *, size_t);
+    char **brkval, **heap_start, **heap_end;
+    struct __freelist **flp;
+    int *counter;
+};
+static HeapApi API_DBG = {igv_malloc, igv_free, igv_realloc, &__brkval, &__malloc_heap_start, &__malloc_heap_end, &__flp, &__allocation_counter};
+static HeapApi API_REL = {igr_malloc, igr_free, igr_realloc, &__brkval_rel, &__malloc_heap_start_rel, &__malloc_heap_end_rel, &__flp_rel, &__allocation_counter_rel};
+static HeapApi *A = &API_DBG;
+#define BRK (*A->brkval)
+#define FLP (*A->flp)
+#define CNT (*A->counter)
 
 static const size_t STATIC_ARENA = 1u << 20;
 alignas(64) char _heap_start[STATIC_ARENA]; // the symbol lin_malloc.cpp links against
@@ -51,6 +76,7 @@ extern "C" void system_lock(void)
 extern "C" void system_unlock(void) { lock_depth--; }
 
 static std::string s(long long v) { return std::to_string(v); }
+static std::string su(size_t v) { return std::to_string((unsigned long long)v); }
 static uint64_t g_seed = 1;
 
 static uint8_t pat(uint64_t seed, size_t i) { return (uint8_t)(((seed * 0x9E37u + i * 131u) % 251u) + 1u); }
@@ -223,7 +249,7 @@ static FreeList walk_freelist(out &o)
 {
     FreeList fl;
     size_t steps = 0;
-    for (struct __freelist *f = __flp; f; f = f->nx)
+    for (struct __freelist *f = FLP; f; f = f->nx)
     {
         if ((char *)f < HC->start || (char *)f + sizeof(struct __freelist) > HC->start + HC->cap)
         {
@@ -245,8 +271,8 @@ static FreeList walk_freelist(out &o)
 // the checks that hold after every heap operation
 static void heap_oracle(out &o, int operated_slot, const FreeList &fl)
 {
-    size_t brk = __brkval ? (size_t)(__brkval - HC->start) : 0;
-    if (__brkval && (__brkval < HC->start || brk > HC->cap)) o.fail("break outside the arena");
+    size_t brk = BRK ? (size_t)(BRK - HC->start) : 0;
+    if (BRK && (BRK < HC->start || brk > HC->cap)) o.fail("break outside the arena");
     if (HC->lim && brk > HC->lim) o.fail("break " + s(brk) + " beyond the heap end " + s(HC->lim));
     // every other live block: contents and header untouched
     for (auto &kv : HC->live)
@@ -292,16 +318,16 @@ static void heap_oracle(out &o, int operated_slot, const FreeList &fl)
         if (a > brk) o.fail("heap walk: last chunk ends behind the break");
         if (a == brk && nchunks != kind.size()) o.fail("heap walk: a chunk lies outside the tiling");
     }
-    if (HC->live.empty() && (brk != 0 || __flp != nullptr))
+    if (HC->live.empty() && (brk != 0 || FLP != nullptr))
         o.fail("no live block but brk=" + s(brk) + " / free list not empty: memory lost");
-    if (__allocation_counter != (int)HC->live.size())
-        o.fail("__allocation_counter=" + s(__allocation_counter) + " with " + s(HC->live.size()) + " live blocks");
+    if (CNT != (int)HC->live.size())
+        o.fail("__allocation_counter=" + s(CNT) + " with " + s(HC->live.size()) + " live blocks");
     if (lock_depth != 0) o.fail("system lock not released");
 }
 
 static std::string heap_line(const std::string &ret, const FreeList &fl)
 {
-    std::string r = "ret=" + ret + " brk=" + s(__brkval ? (long long)(__brkval - HC->start) : 0) + " fl=";
+    std::string r = "ret=" + ret + " brk=" + s(BRK ? (long long)(BRK - HC->start) : 0) + " fl=";
     for (auto &f : fl.v) r += "(" + s(f.first) + "," + s(f.second) + ")";
     r += " live=";
     bool first = true;
@@ -346,7 +372,7 @@ static void run_op(const std::vector<std::string> &w, const std::string &, out &
             if (PC->is_ip)
             {
                 PC->ip.init(PC->zone->p, PC->e * PC->cap, PC->e);
-                o.result = s(PC->ip.size()) + " " + s(PC->ip.room()) + " " + s(PC->ip.avail());
+                o.result = su(PC->ip.size()) + " " + su(PC->ip.room()) + " " + su(PC->ip.avail());
                 if (PC->ip.size() != PC->cap || PC->ip.room() != PC->cap || PC->ip.avail() != PC->cap) o.fail("fresh pool does not report its capacity");
             }
             else
@@ -397,11 +423,13 @@ static void run_op(const std::vector<std::string> &w, const std::string &, out &
                 HC->start = _heap_start;
                 HC->cap = STATIC_ARENA;
             }
-            __malloc_heap_start = HC->start;
-            __malloc_heap_end = HC->lim ? HC->start + HC->lim : nullptr;
-            __brkval = nullptr;
-            __flp = nullptr;
-            __allocation_counter = 0;
+            A = (w.size() > 3 && w[3] == "rel") ? &API_REL : &API_DBG;
+            if (A == &API_REL) o.tag("release-build");
+            *A->heap_start = HC->start;
+            *A->heap_end = HC->lim ? HC->start + HC->lim : nullptr;
+            BRK = nullptr;
+            FLP = nullptr;
+            CNT = 0;
             lock_depth = 0;
             o.result = "ok";
             return;
@@ -446,7 +474,7 @@ static void run_op(const std::vector<std::string> &w, const std::string &, out &
         if (op == "g")
         {
             void *q = ip.get();
-            o.result = (q ? s((uint8_t *)q - PC->zone->p) : std::string("null")) + " " + s(ip.room()) + " " + s(ip.avail());
+            o.result = (q ? s((uint8_t *)q - PC->zone->p) : std::string("null")) + " " + su(ip.room()) + " " + su(ip.avail());
             PC->check_new(q, o);
             o.tag(q ? "get" : "get-null");
         }
@@ -464,7 +492,7 @@ static void run_op(const std::vector<std::string> &w, const std::string &, out &
                 ip.put(PC->zone->p + off);
                 o.tag("put");
             }
-            o.result = s(ip.room()) + " " + s(ip.avail());
+            o.result = su(ip.room()) + " " + su(ip.avail());
         }
         else if (op == "ca")
         {
@@ -494,7 +522,7 @@ static void run_op(const std::vector<std::string> &w, const std::string &, out &
         PC->check_patterns(o);
         size_t want = PC->cap - PC->live.size();
         if (ip.avail() != want) o.fail("avail " + s(ip.avail()) + " != capacity - live = " + s(want));
-        if (ip.room() != want) o.fail("room " + s(ip.room()) + " != capacity - live = " + s(want));
+        if (ip.room() != want) o.fail("room " + su(ip.room()) + " != capacity - live = " + s(want));
         return;
     }
     if (SC)
@@ -547,15 +575,15 @@ static void run_op(const std::vector<std::string> &w, const std::string &, out &
     if (HC)
     {
         size_t fl_before = 0;
-        for (struct __freelist *f = __flp; f && fl_before < 100000; f = f->nx) fl_before++;
-        char *brk_before = __brkval;
+        for (struct __freelist *f = FLP; f && fl_before < 100000; f = f->nx) fl_before++;
+        char *brk_before = BRK;
         std::string ret = "-";
         int slot = -1;
         if (op == "m")
         {
             slot = atoi(w[1].c_str());
             size_t n = strtoul(w[2].c_str(), 0, 10);
-            char *p = (char *)igv_malloc(n);
+            char *p = (char *)A->malloc_(n);
             if (p)
             {
                 Blk b{p, n, 0, hdr_of(p)};
@@ -572,8 +600,8 @@ static void run_op(const std::vector<std::string> &w, const std::string &, out &
             if (p)
             {
                 size_t fl_after = 0;
-                for (struct __freelist *f = __flp; f && fl_after < 100000; f = f->nx) fl_after++;
-                if (__brkval != brk_before) o.tag("malloc-extend");
+                for (struct __freelist *f = FLP; f && fl_after < 100000; f = f->nx) fl_after++;
+                if (BRK != brk_before) o.tag("malloc-extend");
                 else if (fl_after < fl_before) o.tag(hdr_of(p) == (n < 8 ? 8 : (n + 63) / 64 * 64) ? "malloc-exact" : "malloc-whole");
                 else o.tag("malloc-split");
             }
@@ -585,7 +613,7 @@ static void run_op(const std::vector<std::string> &w, const std::string &, out &
             auto it = HC->live.find(slot);
             if (it == HC->live.end())
             {
-                igv_free(nullptr);
+                A->free_(nullptr);
                 o.tag("free-null");
             }
             else
@@ -594,14 +622,14 @@ static void run_op(const std::vector<std::string> &w, const std::string &, out &
                 std::string why;
                 if (!heap_intact(b, b.n, b.p, why)) o.fail("contents changed before free at " + why);
                 HC->live.erase(it);
-                igv_free(b.p);
+                A->free_(b.p);
                 size_t fl_after = 0;
-                for (struct __freelist *f = __flp; f && fl_after < 100000; f = f->nx) fl_after++;
-                if (__brkval != brk_before) o.tag("free-lower-brk");
-                if (fl_after + 1 == fl_before && __brkval == brk_before) o.tag("free-merge-both");
-                else if (fl_after == fl_before && __brkval == brk_before) o.tag("free-merge-one");
+                for (struct __freelist *f = FLP; f && fl_after < 100000; f = f->nx) fl_after++;
+                if (BRK != brk_before) o.tag("free-lower-brk");
+                if (fl_after + 1 == fl_before && BRK == brk_before) o.tag("free-merge-both");
+                else if (fl_after == fl_before && BRK == brk_before) o.tag("free-merge-one");
                 else if (fl_after == fl_before + 1) o.tag("free-insert");
-                if (__brkval != brk_before && fl_after < fl_before) o.tag("free-merge-then-lower");
+                if (BRK != brk_before && fl_after < fl_before) o.tag("free-merge-then-lower");
             }
         }
         else if (op == "r")
@@ -611,7 +639,7 @@ static void run_op(const std::vector<std::string> &w, const std::string &, out &
             auto it = HC->live.find(slot);
             if (it == HC->live.end())
             {
-                char *p = (char *)igv_realloc(nullptr, n);
+                char *p = (char *)A->realloc_(nullptr, n);
                 o.tag("realloc-null-ptr");
                 if (p)
                 {
@@ -634,7 +662,7 @@ static void run_op(const std::vector<std::string> &w, const std::string &, out &
                 std::vector<char> copy(old.p, old.p + old.n);
                 HC->live.erase(it);
                 // while realloc runs, the old block is still owned by the caller
-                char *p = (char *)igv_realloc(old.p, n);
+                char *p = (char *)A->realloc_(old.p, n);
                 if (p)
                 {
                     size_t keep = std::min(old.n, n);
@@ -645,7 +673,7 @@ static void run_op(const std::vector<std::string> &w, const std::string &, out &
                     HC->live[slot] = b;
                     ret = s(p - HC->start);
                     if (p != old.p) o.tag("realloc-move");
-                    else if (__brkval != brk_before && n > old.n) o.tag("realloc-extend-top");
+                    else if (BRK != brk_before && n > old.n) o.tag("realloc-extend-top");
                     else if (hdr_of(p) > old_hdr) o.tag("realloc-grow-into-neighbour");
                     else if (hdr_of(p) < old_hdr) o.tag("realloc-shrink-split");
                     else o.tag("realloc-same-chunk");
@@ -714,15 +742,15 @@ struct HGen
     }
 };
 
-static void gen_heap_random(rng &r, int ncases, int nops)
+static void gen_heap_random(rng &r, int ncases, int nops, bool rel = false)
 {
     for (int c = 0; c < ncases; c++)
     {
         int mode = c % 5;
         size_t lim = 0;
         if (mode == 4) lim = (size_t)r.range(64, 6000); // small arena: exhaustion paths
-        printf("reset heap %zu\n", lim);
-        HGen g(r, 90);
+        printf("reset heap %zu%s\n", lim, rel ? " rel" : "");
+        HGen g(r, rel ? 400 : 90);
         // with a limit a request may fail: the generator cannot know, so the
         // harness treats a slot whose malloc failed as NULL (free(NULL), realloc(NULL))
         if (mode <= 2)
@@ -730,7 +758,7 @@ static void gen_heap_random(rng &r, int ncases, int nops)
             // phases: allocate k blocks, free them LIFO / FIFO / random, again
             for (int round = 0; round < 3; round++)
             {
-                int k = (int)r.range(1, 30);
+                int k = (int)r.range(1, rel ? 130 : 30);
                 for (int i = 0; i < k && (int)g.live.size() < g.max_live; i++) g.m(pick_size(r));
                 // partial release in the phase's order, then refill
                 size_t keep = r.below(g.live.size() + 1);
@@ -757,6 +785,35 @@ static void gen_heap_random(rng &r, int ncases, int nops)
                 else g.rr((size_t)r.below(g.live.size()), lim ? (size_t)r.below(lim / 2 + 2) : pick_size(r));
             }
             g.free_all((int)r.below(3));
+        }
+    }
+}
+
+// small arenas filled to the last byte: the limit tests of malloc (needs len + 8
+// bytes) and of realloc's in-place growth of the topmost chunk (needs ptr + len <= end)
+static void gen_heap_brim(rng &r, int ncases)
+{
+    static const std::vector<int> extras = {0, 7, 8, 15, 16, 17, 23, 24, 56, 63, 64, 65, 71, 72, 73, 80, 136, 144};
+    for (int c = 0; c < ncases; c++)
+    {
+        int k = (int)r.range(1, 5);
+        int extra = extras[(size_t)c % extras.size()];
+        printf("reset heap %d\n", 72 * k + extra);
+        for (int i = 0; i < k; i++) printf("m %d 64\n", i);
+        switch ((c / extras.size()) % 4)
+        {
+        case 0: printf("m %d 0\nm %d 0\nr %d 65\n", k, k + 1, k - 1); break;
+        case 1: printf("r %d 65\nm %d 0\nr %d 129\n", k - 1, k, k - 1); break;
+        case 2: printf("m %d 64\nm %d 0\nm %d 1\n", k, k + 1, k + 2); break;
+        default: printf("r %d 129\nr %d 65\nm %d 64\nm %d 0\n", k - 1, k - 1, k, k + 1); break;
+        }
+        std::vector<int> sl;
+        for (int i = 0; i < k + 3; i++) sl.push_back(i);
+        while (!sl.empty())
+        {
+            size_t i = (size_t)r.below(sl.size());
+            printf("f %d\n", sl[i]);
+            sl.erase(sl.begin() + i);
         }
     }
 }
@@ -975,6 +1032,9 @@ static void gen(rng &r, const std::string &tier)
     // ---- heap: random histories, realloc chains
     gen_heap_random(r, th ? 400 : 60, th ? 300 : 150);
     gen_heap_chains(r, th ? 600 : 120);
+    gen_heap_brim(r, th ? 360 : 72);
+    // the release build (NDEBUG): histories with up to 400 live blocks
+    gen_heap_random(r, th ? 40 : 8, th ? 1500 : 600, true);
 }
 
 int main(int argc, char **argv)
